@@ -293,6 +293,27 @@ namespace tsshapes
             if (op[1] == '+') (void)out[i].add(k); else (void)out[i].remove(k);
         }
     };
+    using ListB = TSL<PairB, 2>;
+    struct ShapeListB   // a fixed list whose elements are bundles populated one member at a time
+    {
+        using S = ListB;
+        static constexpr const char *name = "tslb";
+        // "<i>a=<v>" | "<i>b=<v>"
+        static void apply(const Out<S> &out, const std::string &op, DateTime)
+        {
+            const std::size_t i = static_cast<std::size_t>(op[0] - '0');
+            const Int v{std::stol(op.substr(3))};
+            if (op[1] == 'a') out[i].template field<"a">().set(v); else out[i].template field<"b">().set(v);
+        }
+    };
+    using ListL = TSL<TSL<TS<Int>, 2>, 2>;
+    struct ShapeListL   // a fixed list of fixed lists
+    {
+        using S = ListL;
+        static constexpr const char *name = "tsll";
+        // "<i><j>=<v>"
+        static void apply(const Out<S> &out, const std::string &op, DateTime) { out[static_cast<std::size_t>(op[0] - '0')].set(static_cast<std::size_t>(op[1] - '0'), Int{std::stol(op.substr(3))}); }
+    };
     struct ShapeBundleD
     {
         using S = BundleD;
